@@ -35,7 +35,8 @@ COMPONENTS = {"real": ["redress.budget.Budget", "policy level: redress.policy.* 
               "stub": ["clock (SimClock/TimeShim)", "event loop (SimLoop)", "operation/classifier/strategy/sleeper (scripted)", "RefBudget is the oracle"]}
 ASSUMPTIONS = ["rolling window is half-open (a grant aged exactly window_s is out): the only reading under which both halves of C10 hold",
                "sampling, not proof"]
-BUDGETS = {"quick": (40000, 40), "thorough": (3000000, 280)}
+INTERLEAVING_MEASURE = "distinct (scenario, ready-order choice sequence) pairs among concurrent async scenarios"
+BUDGETS = {"quick": (120000, 90), "thorough": (4000000, 285)}
 
 
 def gen(seed, tier="quick"):
@@ -173,7 +174,7 @@ def execute(scn):
     nt = refused > 0 or aged > 0
     res = {"violations": viol, "shape": common.shape_of(scn, env.trace, env) + ((tuple(info.get("choices") or ()),) if scn.get("concurrent") else ()),
            "nontrivial": nt, "faults": faults, "probes": probes, "sim_us": info["sim_us"], "digest": digest(env.trace), "runs": 1,
-           "schedule": info.get("choices")}
+           "schedule": info.get("choices"), "interleaving": (scn.get("seed"), tuple(info.get("choices") or ())) if scn.get("concurrent") else None}
     if nt:
         res["sample"] = common.sample_of(scn, env.trace, 40)
     return res
